@@ -3,7 +3,7 @@ import glob, json, os
 import vlib
 
 TARGETS = ["Base/Corr.vo", "C18/Model.vo", "C18/Corr.vo", "C18/Spec.vo", "C18/SpecTest.vo", "C18/ProofsBase.vo",
-           "C18/ProofsScalar.vo", "C18/ProofsSparse.vo", "C18/ProofsDense.vo", "C18/ProofsSparseMat.vo", "C18/Props.vo"]
+           "C18/ProofsScalar.vo", "C18/ProofsSparse.vo", "C18/ProofsDense.vo", "C18/ProofsSparseMat.vo", "C18/ProofsInst.vo", "C18/Props.vo"]
 PROPS = ["C18/Props.v"]
 CORPUS = os.path.join(vlib.ROOT, "corpus/C18/corpus.jsonl")
 PROPOSED = os.path.join(vlib.ROOT, "corpus/C18/known_findings_proposed.json")
@@ -108,7 +108,7 @@ def run(ctx):
         ctx.violation({"obligation": "build of harness/c18 against the library", "log": blog[-3000:]}, False,
                       "tie lost: the C18 harness no longer builds against the library")
         return
-    n = 1200 if ctx.tier == "quick" else 12000
+    n = 2400 if ctx.tier == "quick" else 24000
     bad, orc = corr(ctx, binary, n)
     fs = findings()
     unknown, seen_known = [], {}
